@@ -424,6 +424,8 @@ def c02(ctx, rep):
     # file-level round trip: both address stages run on every line, whatever the line contains, in both directions
     from .checks_pipe import line_loop_rules, independent_wiring
     line_loop_rules(ctx, rep, "C02")
+    from .checks_pipe import stream_open_rule
+    stream_open_rule(ctx, rep, "C02")
     independent_wiring(ctx, rep, "C02", only=("anonymizer4", "anonymizer6"))
 
 
@@ -462,6 +464,7 @@ def c03(ctx, rep):
     _pin_iterable(m, rep, "C03")
     from .checks_misc import argument_mutation_rule, stage_state_rule
     stage_state_rule(ctx, rep, "C03", IP_STAGE_ROOTS)
+    _gate_content(ctx, m, rep, "C03")  # whether an address is mapped at all depends on the address and the options only, not on the memo
     argument_mutation_rule(ctx, rep, "C03", [f for f in [c.find_method("__init__") for c in [m.base] + m.p.subclasses(m.base)] if f is not None])
     m.check_split(rep, "C03")
     m.check_split(rep, "C03.undo", inverse=True)
@@ -626,11 +629,40 @@ def cli_options(ctx):
             name = longs[0] if longs else (flags[0] if flags else "?")
             dest = kw.get("dest", ("ok", None))[1] or (longs[0][2:].replace("-", "_") if longs else name.lstrip("-"))
             out[name] = {
+                "kwargs": sorted(k.arg or "**" for k in n.keywords), "env_var": kw.get("env_var"), "nargs": kw.get("nargs"), "const": kw.get("const"),
                 "flags": flags, "longs": longs, "default": kw.get("default", ("absent", None)), "type": kw.get("type"),
                 "action": kw.get("action"), "required": kw.get("required"), "is_config_file": kw.get("is_config_file"),
                 "choices": kw.get("choices"), "dest": dest, "where": "%s:%d (_parse_args)" % (f.module.relpath, n.lineno), "node": n,
             }
     return out
+
+
+_KNOWN_ADD_ARGUMENT_KW = {"help", "default", "action", "type", "required", "dest", "choices", "is_config_file", "metavar", "version"}
+
+
+def option_spec_rule(ctx, rep, cl, only=None):
+    """What the user types is what the program gets: no option converts its value (type=) except the host-bits range check, takes its value from
+    somewhere else (env_var=), or swallows several words (nargs=/const=); keywords outside the reviewed set are reported, not guessed at."""
+    opts = cli_options(ctx)
+    n = 0
+    for name, o in sorted(opts.items()):
+        if only is not None and name not in only:
+            continue
+        n += 1
+        typ = o.get("type")
+        typ_ok = typ is None or (name == "--preserve-host-bits" and typ[0] == "node" and typ[1] == "host_bits") or typ == ("node", "str")
+        rep.ob(cl + ".option-value-as-typed", name, typ_ok, "%s has type=%s; only --preserve-host-bits may convert its value (through host_bits): a type function runs at parse time, before validation, and changes what reaches the anonymizers" % (name, typ[1] if typ else None), o["where"],
+               key="%s.option-value-as-typed|%s" % (cl, name))
+        extra = [k for k in o.get("kwargs", []) if k not in _KNOWN_ADD_ARGUMENT_KW]
+        rep.ob(cl + ".option-source", name, not extra, "%s is declared with %s; keywords that change where the value comes from or how many words it takes (env_var, nargs, const, ...) are not part of the reviewed interface" % (name, extra), o["where"],
+               key="%s.option-source|%s" % (cl, name))
+    rep.ob(cl + ".option-specs", "_parse_args", n >= (len(only) if only else 12), "option declarations examined: %d" % n, "", nontrivial=False)
+    # parser-level environment sources
+    f = ctx.p.find_function("_parse_args")
+    for node in ast.walk(f.node):
+        if isinstance(node, ast.Call) and any(k.arg in ("auto_env_var_prefix", "default_config_files", "fromfile_prefix_chars", "allow_abbrev", "prefix_chars") for k in node.keywords):
+            kws = [k.arg for k in node.keywords if k.arg in ("auto_env_var_prefix", "default_config_files", "fromfile_prefix_chars", "allow_abbrev", "prefix_chars")]
+            rep.fail(cl + ".option-source", "parser", "the parser is created with %s: option values would come from places the property does not mention" % kws, where(f, node), key="%s.option-source|parser" % cl)
 
 
 def _merge_alternatives(v, given, depth=0):
@@ -826,6 +858,9 @@ def c04(ctx, rep):
     memo_uses(m, rep, "C04")
     _undo_threading(ctx, m, rep, "C04")  # the image text is computed once from the parsed integer (no re-mapping loop that looks at host bits)
     _no_cross_state(m, rep, "C04")
+    option_spec_rule(ctx, rep, "C04", only=("--preserve-prefixes", "--preserve-host-bits"))
+    from .checks_pipe import import_clauses, c19 as _c19
+    import_clauses(ctx, rep, "C04", "C19", _c19, ("C19.list-options",))  # every listed prefix reaches the constructor (split on ',' only)
     _private_merge(ctx, m, rep, "C04")  # the private blocks reach the preserved networks (and so the pinned prefixes) whatever else is given
     from .checks_misc import stage_state_rule
     stage_state_rule(ctx, rep, "C04", IP_STAGE_ROOTS)
@@ -976,6 +1011,7 @@ def c05(ctx, rep):
     _private_merge(ctx, m, rep, "C05")
     _cli_binding_networks(ctx, m, rep, "C05")
     _gate_v6(m, rep, "C05")
+    option_spec_rule(ctx, rep, "C05", only=("--preserve-addresses", "--preserve-private-addresses"))
     from .checks_misc import stage_state_rule
     stage_state_rule(ctx, rep, "C05", IP_STAGE_ROOTS)
 
